@@ -241,6 +241,7 @@ func (tr *Transaction) Commit() error {
 		if cerr != nil {
 			// Return error, lets user decide either to retry or discard
 			// transaction.
+			verifTrace(tr.db.s, "cl:unlock", 1)
 			tr.db.compCommitLk.Unlock()
 			return cerr
 		}
